@@ -23,13 +23,20 @@ def lazy_job(args):
     from harness import trav, synth
     rng = random.Random(seed)
     params = {"nets": nets}
-    params.update(extra or {})
+    given_extra = extra
+    extra = dict(extra or {})
+    force_vm1 = extra.pop("_vm1", None)        # harness key: force a vm1 variant
+    params.update(extra)
     synth.reset_swarms()
     g = TestGraph()
-    g.restrs.update(VMR)
+    # mostly the default variants, sometimes another vm1 variant (same-named setup of different vms then coexists)
+    vmr = VMR if rng.random() < 0.6 else dict(VMR, vm1="only Fedora\n")
+    if force_vm1:
+        vmr = dict(VMR, vm1=f"only {force_vm1}\n")
+    g.restrs.update(vmr)
     flat = TestGraph.parse_flat_nodes(restr, params)
     for n in flat:
-        n.update_restrs(VMR)
+        n.update_restrs(vmr)
     g.new_nodes(flat)
     g.parse_shared_root_from_object_roots(params)
     workers = TestGraph.parse_workers(params)
@@ -71,7 +78,7 @@ def lazy_job(args):
         if base in flat_names:
             leaf_results.setdefault(base, []).extend(r["status"] for r in n.results)
     starts = [(e[1], e[2], e[3], e[4]) for evs in run.events for e in evs if e[0] == "start"]
-    return {"restr": restr, "nets": nets, "seed": seed, "extra": extra, "pools": kind, "terminated": run.terminated, "sections": len(run.sections),
+    return {"restr": restr, "nets": nets, "seed": seed, "extra": given_extra, "pools": kind, "terminated": run.terminated, "sections": len(run.sections),
             "fails": fails[:3], "monitor": [list(map(str, m)) for m in run.monitor[:6]], "flat": flat_names, "leaf_results": leaf_results,
             "doors": [list(map(str, e)) for evs in run.events for e in evs if e[0] == "door"][:10],
             "nstarts": len(starts), "dry": (extra or {}).get("dry_run") == "yes",
